@@ -229,8 +229,10 @@ fn handle(mut stream: TcpStream, shared: &Arc<Mutex<HttpShared>>) {
 }
 
 impl HttpServer {
-    pub fn start() -> Option<Self> {
-        let listener = TcpListener::bind("127.0.0.1:0").ok()?;
+    pub fn start() -> Option<Self> { Self::start_on(std::net::IpAddr::V4(std::net::Ipv4Addr::LOCALHOST)) }
+
+    pub fn start_on(ip: std::net::IpAddr) -> Option<Self> {
+        let listener = TcpListener::bind(std::net::SocketAddr::new(ip, 0)).ok()?;
         let port = listener.local_addr().ok()?.port();
         let shared: Arc<Mutex<HttpShared>> = Arc::new(Mutex::new(HttpShared::default()));
         let sh = shared.clone();
@@ -269,6 +271,21 @@ impl HttpServer {
 
 thread_local! {
     static SERVER: std::cell::RefCell<Option<Option<std::rc::Rc<HttpServer>>>> = const { std::cell::RefCell::new(None) };
+}
+
+thread_local! {
+    static SERVER6: std::cell::RefCell<Option<Option<std::rc::Rc<HttpServer>>>> = const { std::cell::RefCell::new(None) };
+}
+
+/// The calling thread's HTTP server on the IPv6 loopback address.
+pub fn thread_server_v6() -> Option<std::rc::Rc<HttpServer>> {
+    SERVER6.with(|s| {
+        let mut g = s.borrow_mut();
+        if g.is_none() {
+            *g = Some(HttpServer::start_on(std::net::IpAddr::V6(std::net::Ipv6Addr::LOCALHOST)).map(std::rc::Rc::new));
+        }
+        g.as_ref().unwrap().clone()
+    })
 }
 
 /// The calling thread's loopback HTTP server.
